@@ -96,11 +96,17 @@ UNumeralVal(s, sign) == \* sign in {1,-1}; value as numeral
       den == Pow10(Len(fp))
       num == DigitsVal(ip) * den + DigitsVal(fp)
   IN Mk(sign * num, den, sign)
+\* "Z400" stands for a run of 400 zeros (the harness writes them out): a digit string with a non-zero leading digit
+\* that contains it is an integer numeral of more than 400 digits - far beyond the largest double - and converts to
+\* the nearest IEEE value, an infinity.  (Such strings occur only as node values in the number-conversion families.)
+HasZ(s) == \E i \in 1..Len(s) : s[i] = "Z400"
+ZNumeral(u) == u # <<>> /\ IsDigit(u[1]) /\ u[1] # "0" /\ \A i \in 1..Len(u) : IsDigit(u[i]) \/ u[i] = "Z400"
 StrToNum(str) ==
   LET t == TrimWS(str)
       neg == t # <<>> /\ t[1] = "-"
       u == IF neg THEN Tail(t) ELSE t
-  IN IF IsUNumeral(u) /\ Len(u) <= 8 THEN UNumeralVal(u, IF neg THEN -1 ELSE 1)
+  IN IF HasZ(u) THEN (IF ZNumeral(u) THEN Inf(IF neg THEN -1 ELSE 1) ELSE Unk)
+     ELSE IF IsUNumeral(u) /\ Len(u) <= 8 THEN UNumeralVal(u, IF neg THEN -1 ELSE 1)
      ELSE IF IsUNumeral(u) THEN Unk ELSE Nan
 
 (***************************************************************************)
